@@ -380,7 +380,7 @@ class SessionStream(Stream):
     shard_size = 12
 
     def budget(self, tier):
-        return 120 if tier == "quick" else 1500
+        return 140 if tier == "quick" else 1500
 
     def _cell(self, rng, k):
         kind = rng.choice(["none", "none", "value", "value", "error", "syntax", "print", "printvalue"])
@@ -443,9 +443,42 @@ class SessionStream(Stream):
             spec["extra_frames"] = [[1, 2, 3]]   # extra (signed) buffers are allowed by the wire protocol
         return spec
 
+    def _structured(self, rng):
+        """Two iopub subscribers x a send buffer that fills up right after each message type on either/both of them x
+        cells that print, return a value, fail: the per-subscriber order (stdout before idle, busy first) must hold."""
+        out = []
+        k = 0
+        for kind in ["stream", "status", "execute_input", "execute_result", "error"]:
+            for which in (["stall1"], ["stall2"], ["stall1", "stall2"]):
+                for cells in (["printvalue", "none"], ["print", "error", "value"]):
+                    reqs = []
+                    for c in cells:
+                        k += 1
+                        code = f"pv_log.append({k})"
+                        nprint = 0
+                        outcome = "ExNone"
+                        if c in ("print", "printvalue"):
+                            # one line or two: with a single line the house-keeping queue is empty while the message is still
+                            # being delivered
+                            nprint = 1 if c == "printvalue" else 2
+                            code += "\nprint('a')" + ("\nprint('b')" if nprint == 2 else "")
+                        if c in ("value", "printvalue"):
+                            code += f"\n{k} + 1"
+                            outcome = "ExValue"
+                        if c == "error":
+                            code += "\n1/0"
+                            outcome = "ExError"
+                        reqs.append({"nonce": rng.randrange(10**6), "ids": [[1, 2, 3]], "msg_type": "execute_request",
+                                     "content": {"code": code}, "outcome": outcome, "stdout": nprint, "store": True})
+                    sess = {"key": "k%08x" % rng.randrange(2**32), "reqs": reqs, "second_sub": True}
+                    for w in which:
+                        sess[w] = [kind, 200]
+                    out.append(sess)
+        return out
+
     def generate(self, ctx, budget, focus=None):
         rng = ctx.rng
-        sessions = []
+        sessions = self._structured(rng)
         while len(sessions) < budget:
             n = rng.choice([1, 2, 3, 4, 6, 8])
             reqs = [self._request(rng, k + 1) for k in range(n)]
@@ -463,11 +496,29 @@ class SessionStream(Stream):
                 i = rng.randrange(n)
                 reqs[i] = self._corrupt(rng, reqs[i])
             sess = {"key": "k%08x" % rng.randrange(2**32), "reqs": reqs}
-            if rng.random() < 0.35:
-                # a second iopub subscriber that may close its connection in the middle of the session
+            if rng.random() < 0.45:
+                # a second iopub subscriber: it may close its connection in the middle of the session, complete its ZMTP
+                # greeting late and in pieces (so it is mid-handshake while requests are handled), and either subscriber's
+                # transport may exert back-pressure (drain() takes several loop turns)
                 sess["second_sub"] = True
-                if rng.random() < 0.7:
+                r2 = rng.random()
+                if r2 < 0.45:
                     sess["second_sub_leaves_before"] = rng.randrange(0, n)
+                elif r2 < 0.8:
+                    ks = sorted(rng.randrange(0, n + 1) for _ in range(3))
+                    sess["second_sub_late"] = ks
+                r3 = rng.random()
+                if r3 < 0.3:
+                    sess[rng.choice(["slow1", "slow2"])] = rng.choice([1, 3, 8])
+                elif r3 < 0.75:
+                    # a transiently full send buffer: the drain() after one particular write stalls for a long time
+                    if rng.random() < 0.4:
+                        sess[rng.choice(["stall1", "stall2"])] = [rng.randrange(3, 4 + 6 * n), rng.choice([40, 200])]
+                    else:
+                        # ... or right after a message of one particular type, on one or both subscribers
+                        kind = rng.choice(["stream", "stream", "status", "execute_input", "execute_result", "error"])
+                        for which in rng.choice([["stall1"], ["stall2"], ["stall1", "stall2"]]):
+                            sess[which] = [kind, rng.choice([40, 200])]
             sessions.append(sess)
         return sessions
 
@@ -496,7 +547,9 @@ class SessionStream(Stream):
 
     def kind(self, case, obs):
         bad = any(("sign_key" in r or "mutations" in r) for r in case["reqs"])
-        sub = "/2sub-leaves" if "second_sub_leaves_before" in case else ("/2sub" if case.get("second_sub") else "")
+        sub = "/2sub-leaves" if "second_sub_leaves_before" in case else ("/2sub-late" if case.get("second_sub_late") else ("/2sub" if case.get("second_sub") else ""))
+        if case.get("slow1") or case.get("slow2") or case.get("stall1") or case.get("stall2"):
+            sub += "/slow"
         return ("corrupted" if bad else "valid") + f"/{len(case['reqs'])}req" + sub
 
     def describe(self, case, obs):
